@@ -35,6 +35,8 @@ abs_new_filled abs_peek abs_clear_seq abs_join ajoin_not_indexed_err abs_remove_
 count_putKey_le pow2_step_bounded capacity_pow2_reachable capacity_pow2_run
 struct_inv_of_check struct_rawget_spec struct_get_spec struct_get_depth_cutoff struct_proto_irrelevant struct_next_visits_each_key_once
 struct_to_table_spec to_struct_certified thaw_freeze_same_map table_rawget_ignores_proto
+struct_put_establishes_inv struct_begin_inv to_struct_spec struct_roundtrip_same_map with_proto_spec
+fromPuts_putsOf_spec thaw_flat_spec freeze_level_spec thaw_freeze_level_same_map
 """.split()
 ENV = dict(os.environ, ASAN_OPTIONS="detect_leaks=0:abort_on_error=0:allocator_may_return_null=1", UBSAN_OPTIONS="print_stacktrace=1")
 NT, NS, NA, NB = 4, 2, 3, 3
@@ -1330,6 +1332,12 @@ def run(ctx, only_ops=None):
                                "buffer, got rc=%s stdout=%r %s" % (bo.get("rc"), bo.get("stdout"), (bo.get("stderr") or "").strip().splitlines()[:1]))
     keys, _, _ = run_impl(hx, [], per_home=per_home)
     pool = [(int(l.split()[1]), int(l.split()[2])) for l in keys if l.startswith("key ")]
+    # hypothesis `RankInj` of the struct theorems (to_struct_spec, with_proto_spec, freeze_level_spec): the janet_compare
+    # ranks the harness reports for the pool keys are pairwise distinct
+    ranks = [int(l.split()[3]) for l in keys if l.startswith("key ") and len(l.split()) > 3]
+    if len(ranks) != len(pool) or len(set(ranks)) != len(ranks):
+        broken.append("hypothesis RankInj of the struct theorems does not hold for the key pool: %d keys, %d distinct janet_compare ranks" % (len(pool), len(set(ranks))))
+        ctx.broken.append(broken[-1])
     rck, kout, _ = run_cmd([hx, "--per-home=%d" % per_home, "--kinds"], timeout=300, env=ENV)
     kinds = {int(l.split()[1]): int(l.split()[2]) for l in kout.decode(errors="replace").splitlines() if l.startswith("kind ")}
     g = Gen(ctx.rng, pool, kinds)
